@@ -754,6 +754,13 @@ def run(tier):
                                'C07.R14')
 
     chk.guard(_unterminated, chk, prog)
+    # what is rendered verbatim was read verbatim (shared with C08.R5)
+    sub08 = Check('C08', 'other', tier, [], [])
+    chk.guard(_c08.rule_r5, sub08, prog)
+    chk.adopt('C07.R15', 'the text the renderers emit verbatim is the text '
+              'of the file: the input reaches the reader without newline '
+              'translation, re-coding or rewriting (shared with C08.R5)',
+              sub08)
     extra = None
     if tier == 'thorough':
         from .. import selftest
